@@ -364,9 +364,24 @@ XPathProcessorImpl::tokenize(const XalanDOMString&  pat)
                     startSubstring = XalanDOMString::npos;
                 }
 
-                substring(pat, theToken, i, i + 1);
+                // "!=", "<=" and ">=" are single tokens, but only when
+                // the two characters are adjacent.
+                t_size_type     theEnd = i + 1;
+
+                if ((c == XalanUnicode::charExclamationMark ||
+                     c == XalanUnicode::charLessThanSign ||
+                     c == XalanUnicode::charGreaterThanSign) &&
+                    theEnd < nChars &&
+                    pat[theEnd] == XalanUnicode::charEqualsSign)
+                {
+                    ++theEnd;
+                }
+
+                substring(pat, theToken, i, theEnd);
 
                 addToTokenQueue(theToken);
+
+                i = theEnd - 1;
             }       
             break;
 
@@ -1013,10 +1028,8 @@ XPathProcessorImpl::EqualityExpr(int    opCodePos)
     bool    foundToken = false;
 
     if(tokenIs(XalanUnicode::charExclamationMark) &&
-       lookahead(XalanUnicode::charEqualsSign, 1))
+       m_token.length() == 2)
     {
-        nextToken();
-
         foundToken = nextToken();
 
         theOpCode = XPathExpression::eOP_NOTEQUALS;
@@ -1094,33 +1107,17 @@ XPathProcessorImpl::RelationalExpr(int  opCodePos)
 
         if(tokenIs(XalanUnicode::charLessThanSign) == true)
         {
+            theOpCode = m_token.length() == 2 ?
+                XPathExpression::eOP_LTE : XPathExpression::eOP_LT;
+
             foundToken = nextToken();
-
-            if(tokenIs(XalanUnicode::charEqualsSign) == true)
-            {
-                foundToken = nextToken();
-
-                theOpCode = XPathExpression::eOP_LTE;
-            }
-            else
-            {
-                theOpCode = XPathExpression::eOP_LT;
-            }
         }
         else if(tokenIs(XalanUnicode::charGreaterThanSign) == true)
         {
+            theOpCode = m_token.length() == 2 ?
+                XPathExpression::eOP_GTE : XPathExpression::eOP_GT;
+
             foundToken = nextToken();
-
-            if(tokenIs(XalanUnicode::charEqualsSign) == true)
-            {
-                foundToken = nextToken();
-
-                theOpCode = XPathExpression::eOP_GTE;
-            }
-            else
-            {
-                theOpCode = XPathExpression::eOP_GT;
-            }
         }
 
         if (theOpCode != XPathExpression::eENDOP)
